@@ -144,7 +144,11 @@ func (t *wScreen) drawCell(x, y int) int {
 	}
 
 	s := ""
-	if len(combc) > 0 {
+	if x > t.w-width {
+		// too wide to fit; emit a single space instead
+		width = 1
+		s = " "
+	} else if len(combc) > 0 {
 		b := make([]rune, 0, 1 + len(combc))
 		b = append(b, mainc)
 		b = append(b, combc...)
